@@ -262,6 +262,19 @@ pub fn cases(quick: bool) -> Vec<Case> {
         let before = vec![Op::CreateDb("d1", "none"), Op::Set("d1", "b", "v"), Op::Set("d1", "a", "v"), Op::Snapshot("d1"), Op::Inc("d1", "fresh")];
         out.push(Case { before, away: h, joiner: Joiner::FromDisk });
     }
+    // fourth family: two databases that both nodes have persisted; while the joiner is away the
+    // same key names are written in both (key identifiers are per name, not per database)
+    let mut letters4: Vec<Op> = vec![Op::Set("d1", "a", "v"), Op::Set("d4", "a", "v"), Op::Set("d4", "b", "w"), Op::Remove("d1", "a"), Op::Remove("d4", "a"), Op::Inc("d4", "n"), Op::Snapshot("d4")];
+    if !quick {
+        letters4.push(Op::Inc("d1", "n"));
+        letters4.push(Op::Set("d1", "b", "w"));
+    }
+    let mut histories4: Vec<Vec<Op>> = vec![];
+    rec(&mut vec![], &letters4, if quick { 2 } else { 3 }, &mut histories4);
+    for h in histories4 {
+        let before = vec![Op::CreateDb("d1", "none"), Op::CreateDb("d4", "none"), Op::Set("d1", "b", "v"), Op::Set("d4", "b", "v"), Op::Snapshot("d1"), Op::Snapshot("d4")];
+        out.push(Case { before, away: h, joiner: Joiner::FromDisk });
+    }
     for h in histories {
         let mut full = vec![Op::CreateDb("d1", "none")];
         full.extend(h);
